@@ -702,14 +702,47 @@ func runC13(w *World, c *Check) {
 		c.Decide(n >= 1, "C13.flags", fk, "pads-to-32-bits", w.Pos(fn.Pos()), "a short bit string is padded to 4 octets before the flag is written", "no padding loop bounded by the constant 4 (octets) / 32 (bits)")
 	}
 
+	// received flag octets keep their position: bit i of a KerberosFlags value is bit i%8 (from the
+	// most significant) of octet i/8 *counted from the first octet* (RFC 4120 §5.2.8, X.690 §8.6),
+	// so a decoder that brings a short bit string up to 32 bits adds the missing octets behind the
+	// received ones — zero octets put in front renumber every flag that was sent
+	for _, fn := range w.ModuleFuncs() {
+		if fn.Pkg == nil || !strings.HasSuffix(fn.Pkg.Pkg.Path(), "/messages") || fn.Name() != "Unmarshal" {
+			continue
+		}
+		fa := NewFuncAn(w, fn)
+		for _, st := range fa.storesTo(`recv\..*\.Bytes`) {
+			addr := fa.R.R(st.Addr)
+			field := strings.TrimSuffix(strings.TrimPrefix(addr, "recv."), ".Bytes")
+			if i := strings.LastIndex(field, "."); i >= 0 {
+				field = field[i+1:]
+			}
+			places, _ := fa.BufferPlaces(st.Val)
+			for _, pl := range places {
+				if !strings.HasSuffix(pl.What, "."+field+".Bytes") {
+					continue
+				}
+				c.Decide(pl.Off == "0", "C13.flags", FuncKey(fn), "received-octets-first:"+field, w.Pos(InstrPos(st)),
+					"when "+field+" is brought up to 32 bits the received octets stay at the front (flag i keeps its number)",
+					"the received octets are placed at offset "+pl.Off+": "+placesString(places))
+			}
+		}
+	}
+
+	ruleFreshDecodeTarget(w, c, "C13.fresh-target")
+
 	// ---- framing -----------------------------------------------------------------------
 	checkCalls(w, c, "C13.framing", "spnego.(*SPNEGOToken).Marshal", []CallSpec{
 		{Name: "init-framing", Desc: "an init token is SPNEGO-OID ‖ NegTokenInit wrapped in APPLICATION 0", Callee: `asn1tools\.AddASNAppTag`,
 			Want: `asn1tools\.AddASNAppTag\(append\(github\.com/jcmturner/gofork/encoding/asn1\.Marshal\(gssapi\.\(OIDName\)\.OID\("SPNEGO"\)\)#0, spnego\.\(\*NegTokenInit\)\.Marshal\(recv\.NegTokenInit\)#0\), 0\)`},
 	})
+	// the message is appended to the header in every case, or only in the cases that have one
+	// (appending an absent message is appending nothing)
+	const krbTokHdr = `append\(github\.com/jcmturner/gofork/encoding/asn1\.Marshal\(recv\.OID\)#0, recv\.tokID\)`
+	const krbTokWithMsg = `append\(` + krbTokHdr + `, [^|]*\)`
 	checkCalls(w, c, "C13.framing", "spnego.(*KRB5Token).Marshal", []CallSpec{
 		{Name: "krb5-framing", Desc: "a KRB5 mech token is OID ‖ tokID ‖ message wrapped in APPLICATION 0", Callee: `asn1tools\.AddASNAppTag`,
-			Want: `asn1tools\.AddASNAppTag\(append\(append\(github\.com/jcmturner/gofork/encoding/asn1\.Marshal\(recv\.OID\)#0, recv\.tokID\), .*\), 0\)`},
+			Want: `asn1tools\.AddASNAppTag\((append\(` + krbTokHdr + `, .*\)|φ\(` + krbTokWithMsg + `\|` + krbTokHdr + `\)|φ\(` + krbTokHdr + `\|` + krbTokWithMsg + `\)), 0\)`},
 	})
 	for fk, tag := range map[string]string{"spnego.(*NegTokenInit).Marshal": "0", "spnego.(*NegTokenResp).Marshal": "1"} {
 		fn := w.Func(fk)
@@ -950,6 +983,64 @@ func ruleClockUTC(w *World, c *Check, rule string) {
 					}
 				}
 				c.Decide(good, rule, FuncKey(fn), "clock-utc", w.Pos(InstrPos(call)), "the clock value is converted to UTC before any other use", "time.Now() is used as "+trunc(bad, 100)+": a local time reaches a message field or a comparison with one")
+			}
+		}
+	}
+}
+
+// ruleFreshDecodeTarget: the ASN.1 decoder leaves a field alone when its OPTIONAL element is
+// absent, so a struct decoded into inside a loop must be a fresh variable of that iteration — a
+// variable declared outside the loop hands element N's optional fields on to element N+1.
+// Exempt: asn1.RawValue (no optional member: every field is set by every decode) and slice
+// targets (the decoder makes a new slice).
+func ruleFreshDecodeTarget(w *World, c *Check, rule string) {
+	c.Rule(rule, "a struct decoded inside a loop is a variable of that iteration: the decoder does not reset fields whose OPTIONAL element is absent, so a target declared outside the loop carries them from one element to the next", 2)
+	for _, fn := range w.ModuleFuncs() {
+		for _, b := range fn.Blocks {
+			var h *ssa.BasicBlock
+			looked := false
+			for _, in := range b.Instrs {
+				call, ok := in.(*ssa.Call)
+				if !ok {
+					continue
+				}
+				f := call.Call.StaticCallee()
+				if f == nil || call.Call.IsInvoke() {
+					continue
+				}
+				var dst ssa.Value
+				switch n := calleeName(f); {
+				case strings.HasSuffix(n, "encoding/asn1.Unmarshal") || strings.HasSuffix(n, "encoding/asn1.UnmarshalWithParams"):
+					if len(call.Call.Args) >= 2 {
+						dst = call.Call.Args[1]
+					}
+				case f.Name() == "Unmarshal" && f.Signature.Recv() != nil && f.Pkg != nil && inModule(f.Pkg.Pkg.Path()):
+					dst = call.Call.Args[0]
+				}
+				if dst == nil {
+					continue
+				}
+				if !looked {
+					h, looked = loopHeaderOf(b), true
+				}
+				if h == nil {
+					continue
+				}
+				if mi, isMI := dst.(*ssa.MakeInterface); isMI {
+					dst = mi.X
+				}
+				a, isAlloc := dst.(*ssa.Alloc)
+				if !isAlloc {
+					continue
+				}
+				et := a.Type().(*types.Pointer).Elem()
+				if _, isSlice := et.Underlying().(*types.Slice); isSlice || strings.HasSuffix(et.String(), "encoding/asn1.RawValue") {
+					c.Ok(rule, FuncKey(fn), "target "+a.Comment+" ("+shortType(et)+")", w.Pos(InstrPos(call)), "the target is replaced as a whole by every decode")
+					continue
+				}
+				c.Decide(loopHeaderOf(a.Block()) == h, rule, FuncKey(fn), "target "+a.Comment+" ("+shortType(et)+")", w.Pos(InstrPos(call)),
+					"the decode target is declared inside the loop it is decoded in",
+					"the target "+a.Comment+" is declared outside the loop: fields of absent OPTIONAL elements keep the previous element's values")
 			}
 		}
 	}
